@@ -26,6 +26,7 @@ CHECKS.update({
     "C03": e1("Same exploration over pool_scope subsets, lxc/remote/serial spawners, max_tries/max_concurrent_tries, initial pools (all subsets of the vm1 chain in shared / own pools); oracle: executions per (worker-invariant test, reuse scope) <= max_tries, creation attempts counted per object, no execution after an all-present first examination in that scope, no flat/clone-source execution."),
     "C04": e1("Same exploration with overlapping durations (up to 5 and 9 back-off periods, incl. durations just below a 10-period timeout budget) and 2-4 workers converging on one setup chain; oracle: sweep over execution intervals per (test, scope) <= configured max_concurrent_tries (two-step creation as one interval), each back-off sleep <= max(test_timeout*max_tries/1000, 0.1) with nothing held while sleeping."),
     "C05": e1("Same exploration over graphs with removable (unset_mode f.) states at several depths (tutorial_gui / tutorial_get, lazy and eager), unset_mode / pool_filter / retry settings; oracle (post hoc on the complete trace): every unset request concerns a state marked f., no dependant is running at that instant or starts later without re-creation, no copy request with the default pool filter, unmarked setup is never unset."),
+    "C10": e1("Every outcome sequence over the seven reportable statuses up to max_tries per test is enumerated on the real traversal for each max_tries / rerun_status / stop_status setting (one worker: exact execution count against a decision-table reference; two workers: all schedules within k, no execution may start once the statuses obtained so far forbid it), invalid settings must end in an error, replays of a previous job with every assignment of previous results x states present/missing, distinct uids, per-try result read-back, and all_results_ok() against the recorded results."),
     "C08": e1("Same exploration over mixed restricted workers, swarms and clusters, retries and replay; oracle at every test start: executing worker == the worker the test was parsed for, its nets_* parameters equal the worker's, its vm variants satisfy the worker's only/no restrictions, and for each required state the workers named in get_location are exactly those with a completed PASS execution (or replayed PASS result) of a producer, the shared pool is always named, and the named workers' access parameters are theirs."),
 })
 
